@@ -157,6 +157,25 @@ def r7(repo, res):
                    expected=f"profile {prof!r} ({kind} input): the structure stage runs with copy-number calling {'on' if want else 'off'}",
                    found=f"{k}; do_copy_number={got}", clause="where copy-number calling is unavailable exactly two default copies", key=f"exome:{prof}:{kind}")
 
+    # the user's structure reaches the structure stage through genotype() (profile construction) unchanged; without one the stage
+    # is free (alignment input) or gets the two default copies (VCF input)
+    routes = [("sam", ["1", "5", "1"], ["1", "5", "1"]), ("sam", ["36", "1"], ["36", "1"]), ("sam", None, None), ("vcf", None, ["1", "1"])]
+    for kind, given, want in routes:
+        try:
+            k, v, trace, _ = gm.run(Scenario(kind=kind, args=dict(output_file=None, profile_name="illumina", cn_solution=given)))
+        except Unfoldable as e:
+            res.err("C03.R7", f"genotype() outside the folding language: {e}")
+            return
+        ev_ = events(trace, "estimate_cn")
+        got = ev_[0][5]["profile"].get("cn_solution", "<no attribute>") if ev_ else "<structure stage not reached>"
+        got = sorted(got) if isinstance(got, (list, tuple)) else got   # a structure is a multiset of configurations
+        want = sorted(want) if want is not None else None
+        same = (got == want) if want is not None else (not got and got != "<structure stage not reached>")
+        res.ob("C03.R7", g, g, k == "return" and same,
+               expected=f"{kind} input, user structure {given}: the structure stage sees cn_solution={want}",
+               found=f"{k}; cn_solution={got}", clause="a user-supplied structure is used verbatim; VCF input: exactly two default copies",
+               key=f"user-route:{kind}:{given}")
+
 
 VAL_SEED = 0
 
@@ -407,6 +426,14 @@ MUTANTS = [
     dict(name="R7 one default copy", module="cn", expect="C03.R7", old="        cn = 2\n", new="        cn = 1\n"),
     dict(name="R7 male guard dropped", module="cn", expect="C03.R7",
          old='        if profile.male and gene.chr in ["X", "Y"]:', new='        if gene.chr in ["X", "Y"]:'),
+    dict(name="R7 user structure dropped on the way (automutate survivor)", module="genotype", expect="C03.R7",
+         old="        if cn_solution:\n", new="        if not cn_solution:\n"),
+    dict(name="R7 user structure cut to two copies on the way", module="genotype", expect="C03.R7",
+         old='profile = Profile("user_provided", cn_solution=cn_solution, **params)', new='profile = Profile("user_provided", cn_solution=cn_solution[:2], **params)'),
+    dict(name="benign: user structure sorted on the way", module="genotype", kind="benign",
+         old='profile = Profile("user_provided", cn_solution=cn_solution, **params)', new='profile = Profile("user_provided", cn_solution=sorted(cn_solution), **params)'),
+    dict(name="benign: user structure copied on the way", module="genotype", kind="benign",
+         old='profile = Profile("user_provided", cn_solution=cn_solution, **params)', new='profile = Profile("user_provided", cn_solution=list(cn_solution), **params)'),
     dict(name="R7 exome keeps copy-number calling", module="genotype", expect="C03.R7",
          old="        gene.do_copy_number = False\n        profile_name = \"illumina\"", new="        profile_name = \"illumina\""),
     # benign
